@@ -92,6 +92,79 @@ pub enum Flavor {
     Tiny,
 }
 
+/// A fixed sample of the whole code space (the pools above are a few dozen hand-picked code
+/// points; anything keyed on another script, plane or property would never be generated): ~50
+/// code points from each of a list of blocks (Hangul syllables and jamo, Thai, Arabic, Devanagari,
+/// emoji, variation selectors, tags, regional indicators, full-width forms, combining marks,
+/// compatibility and presentation forms ...), 1500 uniform over U+0080..U+10FFFF (mostly
+/// unassigned, all valid scalar values), and encoding / case-mapping / NFKC boundary cases.
+/// White_Space code points are left out (WHITESPACE has all of them). Built once from a fixed
+/// seed, so cases replay.
+pub fn scalars() -> &'static [String] {
+    use rand::SeedableRng;
+    static T: std::sync::OnceLock<Vec<String>> = std::sync::OnceLock::new();
+    T.get_or_init(|| {
+        let mut rng = Rng::seed_from_u64(0x5ca1_a125);
+        let mut v: Vec<String> = vec![];
+        let mut push = |x: u32| {
+            if let Some(c) = char::from_u32(x) {
+                if !c.is_whitespace() {
+                    v.push(c.to_string());
+                }
+            }
+        };
+        let blocks: &[(u32, u32)] = &[
+            (0x00a1, 0x024f),   // Latin-1 .. Latin Extended-B
+            (0x0300, 0x036f),   // combining diacritical marks
+            (0x0370, 0x03ff),   // Greek
+            (0x0400, 0x04ff),   // Cyrillic
+            (0x0590, 0x05ff),   // Hebrew
+            (0x0600, 0x06ff),   // Arabic
+            (0x0900, 0x097f),   // Devanagari
+            (0x0e00, 0x0e7f),   // Thai
+            (0x1100, 0x11ff),   // Hangul jamo
+            (0x1e00, 0x1eff),   // Latin Extended Additional
+            (0x2000, 0x206f),   // general punctuation (format characters, joiners)
+            (0x20d0, 0x20ff),   // combining marks for symbols
+            (0x2460, 0x24ff),   // enclosed alphanumerics
+            (0x3040, 0x30ff),   // Hiragana, Katakana
+            (0x3200, 0x33ff),   // enclosed CJK, CJK compatibility
+            (0x4e00, 0x9fff),   // CJK unified ideographs
+            (0xac00, 0xd7a3),   // Hangul syllables
+            (0xf900, 0xfaff),   // CJK compatibility ideographs
+            (0xfb00, 0xfdff),   // alphabetic / Arabic presentation forms
+            (0xfe00, 0xfe0f),   // variation selectors
+            (0xfe20, 0xfe6f),   // combining half marks, small forms
+            (0xff00, 0xffef),   // half- and full-width forms
+            (0x1d400, 0x1d7ff), // mathematical alphanumerics
+            (0x1f1e6, 0x1f1ff), // regional indicators
+            (0x1f300, 0x1faff), // emoji
+            (0x1f3fb, 0x1f3ff), // emoji modifiers
+            (0xe0020, 0xe007f), // tags
+            (0xe0100, 0xe01ef), // variation selectors supplement
+        ];
+        for (lo, hi) in blocks {
+            for _ in 0..48 {
+                push(rng.random_range(*lo..=*hi));
+            }
+        }
+        for _ in 0..1500 {
+            push(rng.random_range(0x80..=0x10ffffu32));
+        }
+        for x in [
+            0x7f, 0x80, 0x7ff, 0x800, 0xffff, 0x10000, 0x10ffff, 0xd7ff, 0xe000, 0xfffd, 0xfffe,
+            // case mappings that change the length, NFKC expansions
+            0xdf, 0x1e9e, 0x130, 0x131, 0x149, 0x1f0, 0x390, 0x587, 0x1e96, 0xfb03, 0xfb06, 0xfdfa,
+            0x3300, 0x2126, 0x212b, 0x1f88, 0x2160, 0x33a7, 0xbd, 0xb5, 0x17f, 0x345, 0x3c2,
+            // soft hyphen, Mongolian vowel separator, joiners, directional marks, BOM
+            0xad, 0x180e, 0x200b, 0x200c, 0x200d, 0x200e, 0x2060, 0x2066, 0xfeff,
+        ] {
+            push(x);
+        }
+        v
+    })
+}
+
 /// one random "character" (may be a multi code point sequence)
 pub fn any_char(rng: &mut Rng, with_whitespace: bool, with_special: bool) -> &'static str {
     let r = rng.random_range(0..100);
@@ -109,7 +182,14 @@ pub fn any_char(rng: &mut Rng, with_whitespace: bool, with_special: bool) -> &'s
                 pick(rng, ASCII_LETTERS)
             }
         }
-        60..=74 => pick(rng, MULTIBYTE),
+        60..=74 => {
+            if rng.random_range(0..3) == 0 {
+                let t = scalars();
+                t[rng.random_range(0..t.len())].as_str()
+            } else {
+                pick(rng, MULTIBYTE)
+            }
+        }
         75..=82 => pick(rng, CLUSTERS),
         83..=88 => pick(rng, COMBINING),
         89..=92 => pick(rng, ZERO_WIDTH),
